@@ -185,6 +185,7 @@ pub fn property() -> Property {
     add::<SOrswot>(&mut jobs, Disc::Fifo, 15000, 150_000);
     add::<SList>(&mut jobs, Disc::Causal, 12000, 100_000);
     add::<MapOrswot>(&mut jobs, Disc::Causal, 15000, 150_000);
+    add::<MapOrswot>(&mut jobs, Disc::Fifo, 12000, 100_000);
     add::<MapMVReg>(&mut jobs, Disc::Causal, 15000, 150_000);
     add::<MapMapMVReg>(&mut jobs, Disc::Causal, 12000, 100_000);
     add::<SMerkle>(&mut jobs, Disc::Any, 12000, 100_000);
